@@ -9,6 +9,7 @@ ordered positional matching is the intended node, 1251 values follow the actual 
 segments, no trailing blanks, no delimiter characters in data.
 """
 import calendar
+import copy
 import random
 import re
 
@@ -332,6 +333,27 @@ class Doc(object):
     def segments(self):
         """[(id, [elements: list of component lists])] in normal form"""
         return [norm(r.node.id, r.vals) for r in self.recs]
+
+
+def add_ta1(doc, where='after-isa'):
+    """a copy of doc with an interchange acknowledgement segment in every interchange: right after the ISA (its canonical place), or,
+    where='before-iea', after the last group"""
+    d = Doc()
+    d.entry, d.mapfile, d.charset, d.meta, d.shadowed = doc.entry, doc.mapfile, doc.charset, dict(doc.meta), doc.shadowed
+    d.meta['ta1'] = where
+    for r in doc.recs:
+        if r.node.id == 'IEA' and where == 'before-iea':
+            isa_loop = r.chain[0][0]
+            ta1 = [c for c in isa_loop.children if c.id == 'TA1'][0]
+            d.recs.append(Rec(ta1, [isa_ctl, '240101', '1200', 'A', '000'], list(r.chain[:1])))
+        d.recs.append(Rec(r.node, copy.deepcopy(r.vals), list(r.chain)))
+        if r.node.id == 'ISA':
+            isa_ctl = r.vals[12]
+            if where == 'after-isa':
+                isa_loop = r.chain[0][0]
+                ta1 = [c for c in isa_loop.children if c.id == 'TA1'][0]
+                d.recs.append(Rec(ta1, [isa_ctl, '240101', '1200', 'A', '000'], list(r.chain[:1])))
+    return d
 
 
 def concat_docs(docs):
